@@ -90,8 +90,8 @@ def run(ctx):
         "roots (name-based alias closure; same assumptions as C07)",
     ]
     ctx.trusted += [
-        "util.Scope.clone / reparent / get_parent by assumed contract (new scope with the same content and parent; sets the "
-        "parent; returns it); FunctionNode.clone by assumed contract (new node, fmtdict/options are clones); a scope is "
+        "util.Scope.clone by assumed contract (new scope with the same content and parent; it iterates __dict__); reparent / "
+        "get_parent are verified units (contracts/util_scope.py); FunctionNode.clone by assumed contract (new node, fmtdict/options are clones); a scope is "
         "abstracted by the signature of its lookup chain (contracts/ast_clone.py)",
     ]
     ctx.not_covered += [
